@@ -211,9 +211,9 @@ def leafXs : LeafInfo := ⟨2, 1, .int32, 0, ["g", "xs"]⟩
 def leafK : LeafInfo := ⟨0, 0, .byteArray, 0, ["k"]⟩
 
 def schema : Schema.Node :=
-  .group ⟨"schema", none, none, 0, none⟩
-    [.group ⟨"g", some .optional, none, 0, none⟩ [.leaf ⟨"xs", some .repeated, some 1, 0, none⟩],
-     .leaf ⟨"k", some .required, some 6, 0, none⟩]
+  .group ⟨"schema", none, none, 0, none, none⟩
+    [.group ⟨"g", some .optional, none, 0, none, none⟩ [.leaf ⟨"xs", some .repeated, some 1, 0, none, none⟩],
+     .leaf ⟨"k", some .required, some 6, 0, none, none⟩]
 
 def xs1 : List Entry :=
   [⟨0, 2, some [1, 0, 0, 0]⟩, ⟨1, 2, some [2, 0, 0, 0]⟩, ⟨0, 0, none⟩, ⟨0, 1, none⟩, ⟨0, 2, some [0xff, 0xff, 0xff, 0x7f]⟩]
